@@ -379,15 +379,33 @@ def doc_rgraph(seed, base):
     return d
 
 
-WRONGCOUNT = ("wcp", "wcm", "wcnp", "wcnm")
+def doc_junk(base, kind, delta):
+    """a flat tree whose /Kids also holds entries that are no pages: a direct null, a reference to an integer object, a
+    reference to a null object; /Count = number of real pages + delta"""
+    d = doc_flat(3, base, annots=False)
+    p = d.objects[2][b"Kids"]
+    junk = {"n": None, "i": d.add(12), "z": d.add(None)}[kind]
+    d.objects[2][b"Kids"] = [p[0], junk, p[1], p[2]] if kind != "z" else [junk, p[0], p[1], junk, p[2]]
+    d.objects[2][b"Count"] = 3 + delta
+    return d
+
+
+WRONGCOUNT = ("wcp", "wcm", "wcnp", "wcnm", "jnm")
+JUNK_LARGE = ("jn1", "ji1")        # /Count counts the non-page entry: repaired by the first getAllPages (observation level >= 1)
 FAMILIES.update({
     "wcp": (lambda b: doc_wrongcount(b, 1), True),
     "wcm": (lambda b: doc_wrongcount(b, -1), True),
     "wcnp": (lambda b: doc_wrongcount(b, 2, True), True),
     "wcnm": (lambda b: doc_wrongcount(b, -3, True), True),
     "innerc": (lambda b: doc_innercount(b), True),
+    "jn0": (lambda b: doc_junk(b, "n", 0), True),
+    "ji0": (lambda b: doc_junk(b, "i", 0), True),
+    "jz0": (lambda b: doc_junk(b, "z", 0), True),
+    "jn1": (lambda b: doc_junk(b, "n", 1), True),
+    "ji1": (lambda b: doc_junk(b, "i", 1), True),
+    "jnm": (lambda b: doc_junk(b, "n", -1), True),
 })
-BASE_FAMILIES = [f for f in FAMILIES if f not in WRONGCOUNT and f != "innerc"]   # what the original generators draw from
+BASE_FAMILIES = [f for f in FAMILIES if f not in WRONGCOUNT and f != "innerc" and not f.startswith("j")]   # what the original generators draw from
 
 _doc_cache = {}
 
@@ -426,6 +444,26 @@ def gen_ops(rng, length, hostile=False):
     for _ in range(length):
         d = rng.randrange(2)
         s = d if rng.random() < 0.55 else 1 - d
+        if rng.random() < 0.12:
+            # in-place edits through handles: a direct value of a page (after a re-insertion the copy must not follow), or
+            # the root /Kids array itself (then updateAllPagesCache, now or later)
+            r = rng.random()
+            mkc[0] += 1
+            if r < 0.3:
+                ops.append("mb,%d,%s,%d,%d" % (d, obj(0.9), rng.randrange(5), mkc[0]))
+            elif r < 0.55:
+                ops.append("rk,%d,%s,%d,%d" % (d, obj(0.9), rng.randrange(3), mkc[0]))
+            elif r < 0.7:
+                ops.append("na,%d,%s,%d" % (d, obj(0.9), mkc[0]))
+            elif r < 0.85:
+                ops.append("kn,%d,%d" % (d, rng.randrange(5)))
+                if rng.random() < 0.6:
+                    ops.append("uc,%d" % d)
+            else:
+                ops.append("ks,%d,%d,%d" % (d, rng.randrange(5), rng.randrange(5)))
+                if rng.random() < 0.6:
+                    ops.append("uc,%d" % d)
+            continue
         k = rng.random()
         if k < 0.16:
             ops.append("%s,%d,%d,%s,%d" % (rng.choice(["ap", "hp"]), d, s, obj(), rng.randrange(2)))
@@ -509,6 +547,8 @@ def small_alphabet(tier):
     a.append("pi,1")
     a.append("ap,1,0,@l0,0")
     a.append("rm,1,1,@l1")
+    a.append("mb,0,@l0,2,777")                  # in-place edit of the first page's /MediaBox (after a re-insertion: of the copy)
+    a.append("rk,0,@l1,3,778")                  # ... of the second page's /Resources
     if tier != "quick":
         a.append("ha,0,1,@l2,1,0,@l1")
         a.append("hr,0,0,@l1")
@@ -535,6 +575,15 @@ CORPUS = [
     ("nested1", "flat3", "0w", ["rm,0,0,@l3", "uc,0", "ap,0,0,@l0,1", "sc,0,@l2", "aa,0,0,@n0,0,0,@l1"]),
     ("shared", "sharedx", "1w", ["rm,0,0,@l0", "ap,1,0,@l0,1", "rm,1,1,@l3"]),
     ("empty", "flat1", "1w", ["ap,0,1,@l0,0", "rm,0,0,@l0", "ap,0,1,@l0,1", "uc,0", "rm,0,0,@l0", "gp,0"]),
+    # re-inserted pages are values of their own (seeded C13-5): local page twice, the same foreign page twice, edit either copy
+    ("flat3", "flat3", "1w", ["ap,0,0,@l0,0", "mb,0,@l3,2,777", "rk,0,@l0,1,778", "na,0,@l3,779"]),
+    ("flat3", "flat4r", "0w", ["ap,0,1,@l1,0", "ap,0,1,@l1,1", "mb,0,@l0,1,777", "rk,0,@l4,2,778"]),
+    ("nested1", "flat3", "2w", ["aa,0,0,@l2,1,0,@l2", "rk,0,@l2,0,777", "mb,0,@l3,0,778"]),
+    # non-page /Kids entries are repaired ONCE (seeded C13-6): refresh again later, with and without further direct edits
+    ("jn0", "flat3", "1w", ["uc,0", "fp,0,@l1", "uc,0", "ap,0,0,@l0,1"]),
+    ("ji0", "jz0", "0w", ["gp,0", "ks,0,0,2", "uc,0", "fp,0,@l0", "ap,0,0,@l1,0", "kn,1,1", "uc,1", "rm,1,1,@l0"]),
+    ("jn1", "flat3", "1w", ["an,0,0,901", "kn,0,0", "uc,0", "fp,0,@l0", "uc,0", "gp,0"]),
+    ("flat3", "nested0", "1w", ["kn,0,1", "gp,1", "uc,0", "uc,0", "rm,0,0,@l0", "ks,1,0,2", "uc,1", "fp,1,@l0"]),
 ]
 
 
@@ -628,11 +677,17 @@ def tree_info(t):
         root, count, rest = t.split(":", 2)
     except ValueError:
         return None
-    ids, marks, rots, par_ok, weird = [], [], [], True, False
+    ids, marks, rots, par_ok, weird, junk, junk_direct, junk_ids = [], [], [], True, False, 0, 0, []
     for leaf in rest.split(","):
         if not leaf:
             continue
         parts = leaf.split("^")
+        if len(parts) == 2 and parts[1] == "x":
+            junk += 1               # a /Kids entry that is no dictionary: not a page (the cache drops it with a warning)
+            junk_direct += parts[0] == "d"
+            if parts[0] != "d":
+                junk_ids.append(int(parts[0]))
+            continue
         if len(parts) != 5:
             weird = True
             continue
@@ -642,7 +697,7 @@ def tree_info(t):
         rots.append(int(rot))
         if par != actual:
             par_ok = False
-    return {"root": root, "count": count, "ids": ids, "marks": marks, "rots": rots, "par_ok": par_ok, "weird": weird}
+    return {"root": root, "count": count, "ids": ids, "marks": marks, "rots": rots, "par_ok": par_ok, "weird": weird, "junk": junk, "junk_direct": junk_direct, "junk_ids": junk_ids}
 
 
 def kinds(k):
@@ -671,7 +726,7 @@ class Stop(Exception):
     pass
 
 
-def translate(op, L, K):
+def translate(op, L, K, J=((), ())):
     """concrete operation + pre-state (leaf ids L[d], dictionary kinds K[d]) -> (sop text, signature if the call is
     invalid, expectation on the result).  Raises Stop when the operation leaves the domain of the list specification."""
     o = op[0]
@@ -741,6 +796,8 @@ def translate(op, L, K):
             return "s,%d,%d,%d" % (d, L[d].index(i), int(m.group(1)) if m else -1), None, "ok"
         if i in K[d] and K[d][i][1] in "PC":
             raise Stop("tree node replaced")
+        if i in J[d]:
+            raise Stop("an object that /Kids lists (not a page) replaced")
         return "n", None, "ok"
     if o == "ri":
         # replaceObject with an indirect handle: "The object handle passed in must be a direct object" (QPDF.hh)
@@ -761,6 +818,8 @@ def translate(op, L, K):
         for x in (i, j):
             if x in K[d] and K[d][x][1] in "PC":
                 raise Stop("tree node swapped")
+            if x in J[d]:
+                raise Stop("an object that /Kids lists (not a page) swapped")
         if ini and inj:
             once(d, i)
             once(d, j)
@@ -779,6 +838,12 @@ def translate(op, L, K):
         return "n", None, "ok:%d" % L[d].index(i)
     if o in ("uc", "gp", "pi", "mi"):
         return "n", None, "ok"
+    if o in ("mb", "rk", "na"):
+        # an in-place edit of a value held by an object: no page list changes (check_values judges the page VALUES)
+        d, i = int(op[1]), int(op[2])
+        if i in K[d] and K[d][i][1] in "PC":
+            raise Stop("tree node edited in place")
+        return "n", None, "any"
     raise Stop("unknown op")
 
 
@@ -791,6 +856,9 @@ def spec_plan(case, steps):
     copied = False                # some object has been copied between the documents
     taint = [False, False]        # replaceObject/swapObjects after a copy: "if you mutate an object that has already been
     #                               copied and try to copy it again, it won't work" (QPDF.hh) - the specification stops there
+    dirty = [None, None]          # length of the specification's list when /Kids of that document was edited directly
+    skip = {}                     # plan index -> documents whose observations are not judged at that step
+    t0[0]["_skip"] = skip
     for i in range(1, len(steps) - 1):
         pre, cur = steps[i - 1], steps[i]
         ts = [tree_info(x) for x in pre["t"].split("/")]
@@ -803,11 +871,37 @@ def spec_plan(case, steps):
             foreign = (op[0] in ("ap", "hp", "aa", "ha", "cf") and op[1] != op[2])
             if foreign and (taint[0] or taint[1]):
                 raise Stop("copy after a copied object was modified directly")
-            if op[0] in ("rp", "sw") and copied:
+            if op[0] in ("rp", "sw", "mb", "rk", "na") and copied:
                 taint[int(op[1])] = True
             if foreign:
                 copied = True
-            sop, sig, expect = translate(op, L, K)
+            if op[0] in ("kn", "ks"):
+                # "If a user touches anything about the /Pages structure outside of these calls ... they can call
+                # updatePagesCache() to bring things back in sync": the list of that document is judged again after it
+                d = int(op[1])
+                if cur.get("r") == "ok" and dirty[d] is None:
+                    dirty[d] = len(L[d])
+                skip[len(plan)] = set(k for k in (0, 1) if dirty[k] is not None)
+                plan.append(("n", None, "any"))
+                continue
+            if any(x is not None for x in dirty):
+                docs = set(int(x) for x in ([op[1]] + ([op[2]] if op[0] in ("ap", "hp", "aa", "ha", "rm", "hr", "cf") else []) +
+                                           ([op[5]] if op[0] in ("aa", "ha") else []) + ([op[3]] if op[0] == "ri" else [])))
+                d = int(op[1])
+                if op[0] == "uc" and dirty[d] is not None:
+                    # back in sync: the list is what the tree shows now (dictionary leaves in order)
+                    cur_t = tree_info(pre["t"].split("/")[d])
+                    if cur_t is None or cur_t["weird"]:
+                        raise Stop("tree damaged beyond non-page entries")
+                    sops = ["r,%d,0" % d] * dirty[d] + ["i,%d,%d,%d" % (d, k, m) for k, m in enumerate(cur_t["marks"])] + ["n"]
+                    dirty[d] = None
+                    skip[len(plan)] = set(k for k in (0, 1) if dirty[k] is not None)
+                    plan.append((";".join(sops), None, "ok"))
+                    continue
+                if any(dirty[k] is not None for k in docs):
+                    raise Stop("call on a document whose /Kids was edited directly and not refreshed")
+                skip[len(plan)] = set(k for k in (0, 1) if dirty[k] is not None)
+            sop, sig, expect = translate(op, L, K, [t["junk_ids"] for t in ts])
         except Stop as e:
             plan.append(("stop", str(e), None))
             break
@@ -815,6 +909,8 @@ def spec_plan(case, steps):
             plan.append(("stop", "untranslatable %r" % (e,), None))
             break
         plan.append((sop, sig, expect))
+    if any(x is not None for x in dirty) and not (plan and plan[-1][0] == "stop"):
+        plan.append(("stop", "history ends with an unrefreshed direct edit of /Kids", None))
     return t0, plan
 
 
@@ -825,6 +921,23 @@ def wrongcount_sig(case, why):
     if case["fa"] in WRONGCOUNT or case["fb"] in WRONGCOUNT:
         if re.search(r"/Count|valid call raised E:rt|tree leaves|getAllPages|write \+ re-read|final tree", why):
             return "C13:wrong-root-count"
+    return ""
+
+
+FLATTENING = ("ap", "hp", "an", "av", "aa", "ha", "rm", "hr", "fp")
+
+
+def nonpage_kid_sig(why, pre, op):
+    """known findings C13-F7 / C13-F8: what a /Kids entry that is not a page makes qpdf do (judged from the raw tree BEFORE the call)"""
+    if not why.startswith("valid call raised E:qexc") or not op or not op[0]:
+        return ""
+    t = tree_info(pre["t"].split("/")[int(op[1])])
+    if t is None or not t["junk"]:
+        return ""
+    if op[0] in FLATTENING:
+        return "C13:junk-kids-first-flatten"
+    if op[0] in ("uc", "gp", "pi") and t["junk_direct"]:
+        return "C13:refresh-ownerless-null"
     return ""
 
 
@@ -841,13 +954,22 @@ def check_spec(chk, case, steps, t0, plan, spec_out, stats):
     # effective /Rotate of every position (own value or inherited): a second plain list, maintained here; None = unknown
     rots = [list(t["rots"]) for t in t0]
     cf_done = [False, False]
+    skipmap = t0[0].get("_skip", {})
+    ridx = -1                         # index into the specification's results (a refresh after a direct edit is several list operations)
     for i, (sop, sig, expect) in enumerate(plan):
+        skipd = skipmap.get(i, ())
+        if sop != "stop":
+            ridx += len(sop.split(";"))
         if sop != "stop":
             opf = steps[i + 1].get("o", "").split(",")
             if opf[0] in ("rp", "sw"):
                 sloppy_page[int(opf[1])] = True       # whatever was replaced may be referenced by a page
                 if sop != "n":
                     parent_dirty[int(opf[1])] = True
+            elif opf[0] in ("mb", "rk", "na", "kn", "ks"):
+                sloppy_page[int(opf[1])] = True       # the caller put integers into page attributes / nulls into /Kids
+            elif ";" in sop:
+                parent_dirty[int(opf[1])] = False
             elif sop.startswith("i,") and opf[0] != "an":
                 # what is inserted is a page of one of the documents (then it has the page attributes) or just some dictionary
                 pre_t = [tree_info(x) for x in steps[i]["t"].split("/")]
@@ -869,7 +991,7 @@ def check_spec(chk, case, steps, t0, plan, spec_out, stats):
             # the dump could not read some stream's data: reported by the stream pass of run(); nothing more to compare
             stats["spec_stopped"] += 1
             return
-        la, lb, must_raise = res[i].split("/")
+        la, lb, must_raise = res[ridx].split("/")
         want = [[int(x) for x in la.split(",") if x], [int(x) for x in lb.split(",") if x]]
         r = cur.get("r", "")
         raised = r.startswith("E:")
@@ -877,7 +999,12 @@ def check_spec(chk, case, steps, t0, plan, spec_out, stats):
         why = None
         # the rotation list follows the same list operation (only when the call did what the specification says)
         opf = cur.get("o", "").split(",")
-        if must_raise == "0" and not raised:
+        if ";" in sop:
+            # back in sync after a direct edit: inherited attributes of the positions are unknown from here
+            dd = int(opf[1])
+            rots[dd] = [None] * len(want[dd])
+            sloppy_page[dd] = True
+        elif must_raise == "0" and not raised:
             f = sop.split(",")
             if f[0] == "i":
                 r_new = None
@@ -907,6 +1034,8 @@ def check_spec(chk, case, steps, t0, plan, spec_out, stats):
             why = "findPage returned %s, the list says %s" % (r, expect)
         else:
             for d in (0, 1):
+                if d in skipd:
+                    continue
                 t = ts[d]
                 if t is None or t["weird"]:
                     why = "document %d: /Pages tree is no longer a tree of dictionaries" % d
@@ -918,12 +1047,16 @@ def check_spec(chk, case, steps, t0, plan, spec_out, stats):
                     break
             if not why:
                 for d in (0, 1):
+                    if d in skipd:
+                        continue
                     got = ts[d]["rots"]
                     if len(got) == len(rots[d]) and any(a is not None and a != b for a, b in zip(rots[d], got)):
                         why = "document %d: effective /Rotate of the pages %s, expected %s (inherited attributes are not those of the position)" % (d, got, rots[d])
                         break
             if not why and "p" in cur:
                 for d, p in enumerate(cur["p"].split("/")):
+                    if d in skipd:
+                        continue
                     pl = plist(p)
                     if pl is None or pl[1] != want[d]:
                         why = "document %d: getAllPages %s, list model %s" % (d, p, want[d])
@@ -938,6 +1071,8 @@ def check_spec(chk, case, steps, t0, plan, spec_out, stats):
                             break
             if not why and "f" in cur:
                 for d, f in enumerate(cur["f"].split("/")):
+                    if d in skipd:
+                        continue
                     if f != "".join("%d," % k for k in range(len(want[d]))):
                         why = "document %d: findPage of the pages gives %s" % (d, f)
                         break
@@ -947,9 +1082,9 @@ def check_spec(chk, case, steps, t0, plan, spec_out, stats):
                 if pl is None or pl[1] != want[d]:
                     why = "getAllPages result %s, list model %s" % (r, want[d])
         if why:
-            wsig = wrongcount_sig(case, why)
+            wsig = wrongcount_sig(case, why) or nonpage_kid_sig(why, steps[i], opf)
             chk.violation({"kind": "property-fails-on-implementation", "part": "list-spec", "case": desc, "step": i + 1,
-                           "operation": cur.get("o"), "why": why, "specification": res[i], "implementation": {k: cur.get(k) for k in ("r", "t", "p", "f")},
+                           "operation": cur.get("o"), "why": why, "specification": res[ridx], "implementation": {k: cur.get(k) for k in ("r", "t", "p", "f")},
                            "minimal_history": concrete_ops(steps)[:i + 1],
                            "replay": replay_line(case, steps)}, signature=(sig or "") if why == "invalid call did not raise" else wsig)
             stats["spec_viol"] += 1
@@ -1143,7 +1278,7 @@ def check_copies(chk, case, steps, stats):
     for i in range(1, len(steps) - 1):
         cur, pre = steps[i], steps[i - 1]
         op = cur.get("o", "").split(",")
-        if op[0] in ("rp", "sw", "av", "mi") or "x" in cur:
+        if op[0] in ("rp", "sw", "av", "mi", "mb", "rk", "na", "kn", "ks") or "x" in cur:
             dirty = True          # objects changed behind the copier's memo: the documentation excludes this
         if dirty or op[0] != "cf" or not cur.get("r", "").startswith("ok:") or "d" not in cur or "d" not in pre:
             continue
@@ -1183,6 +1318,44 @@ def check_copies(chk, case, steps, stats):
                            "operation": cur.get("o"), "why": why, "minimal_history": concrete_ops(steps)[:i], "replay": replay_line(case, steps)})
             stats["spec_viol"] += 1
             return
+
+
+def leafvals(q):
+    """'id^hash,...' -> {id: hash} (direct leaves 'd' are left out)"""
+    m = {}
+    for e in q.split(","):
+        if e and "^" in e:
+            i, h = e.split("^")
+            if i != "d":
+                m[int(i)] = h
+    return m
+
+
+def check_values(chk, case, steps, stats):
+    """pages are independent values (ISO 32000-1 7.7.3.3: each page object is a dictionary of its own; QPDF.hh addPage: 'if the
+    page is already in the pages tree, a shallow copy is made' - a copy, not an alias): an in-place edit of a value held by ONE
+    object (setArrayItem on its /MediaBox, replaceKey in its /Resources, appendItem to its /Annots) may change the dictionary
+    of that page only.  Judged on what the driver's raw walk shows of every leaf before and after the call."""
+    for k in range(1, len(steps) - 1):
+        cur, pre = steps[k], steps[k - 1]
+        op = cur.get("o", "").split(",")
+        r = cur.get("r", "")
+        if op[0] not in ("mb", "rk", "na") or not r.startswith("ok") or r == "ok:skip" or "q" not in cur or "q" not in pre:
+            continue
+        # the edited container is a direct value of object i ("ok"), or the indirect object the attribute names ("ok:<id>")
+        d, i = int(op[1]), (int(op[2]) if r == "ok" else int(r[3:]))
+        stats["value_frames"] = stats.get("value_frames", 0) + 1
+        for dd, (qa, qb) in enumerate(zip(pre["q"].split("/"), cur["q"].split("/"))):
+            a, b = leafvals(qa), leafvals(qb)
+            for j in a:
+                if j in b and a[j] != b[j] and (dd, j) != (d, i):
+                    chk.violation({"kind": "property-fails-on-implementation", "part": "page-values", "case": describe(case, steps), "step": k,
+                                   "operation": cur.get("o"),
+                                   "why": "the in-place edit of a direct value of object %d of document %d changed the dictionary of page object %d of document %d: "
+                                          "two entries of the page list share a value" % (i, d, j, dd),
+                                   "minimal_history": concrete_ops(steps)[:k], "replay": replay_line(case, steps)})
+                    stats["spec_viol"] += 1
+                    return
 
 
 def concrete_ops(steps):
@@ -1348,6 +1521,10 @@ def run_batch(chk, cases, agg):
         if "v" in c["flags"]:
             check_copies(chk, c, isteps[i], stats)
 
+    # ---- pages are independent values (all histories)
+    for i, c in enumerate(cases):
+        check_values(chk, c, isteps[i], stats)
+
     # ---- stream data of every object must stay readable (all histories, also outside the list specification)
     for i, c in enumerate(cases):
         for k, st in enumerate(isteps[i]):
@@ -1406,7 +1583,7 @@ def ext_gen(chk):
     operation kind mixed, write + re-read at the end of every history"""
     rng = chk.rng
     quick = chk.tier == "quick"
-    new = ["wcp", "wcm", "wcnp", "wcnm", "innerc"]
+    new = ["wcp", "wcm", "wcnp", "wcnm", "jnm", "innerc", "jn0", "ji0", "jz0", "jn1", "ji1"]
     for kind, builder, n in (("rt", doc_rtree, 5 if quick else 16), ("rg", doc_rgraph, 5 if quick else 16)):
         for _ in range(n):
             seed = rng.randrange(1 << 30)
@@ -1427,8 +1604,18 @@ def ext_gen(chk):
             d = rng.randrange(2)
             pre = ["cf,%d,%d,@o%d" % (d, 1 - d, rng.randrange(40)) for _ in range(rng.randrange(1, 4))]
             ops = pre + ["ap,%d,%d,@l%d,%d" % (d, 1 - d, rng.randrange(4), rng.randrange(2))] + ops
+        flags = rng.choice("012") + "w" + ("v" if rng.random() < 0.25 else "")
+        if fa in JUNK_LARGE or fb in JUNK_LARGE or ((fa[0] == "j" or fb[0] == "j") and rng.random() < 0.8):
+            flags = rng.choice("12") + flags[1:]      # (with level 0 the first flattening call meets known finding C13-F7)
+        if (fa[0] == "j" or fb[0] == "j") and rng.random() < 0.5:
+            # refresh the cache again, later, also after direct edits of /Kids
+            d = 0 if fa[0] == "j" else 1
+            extra = rng.choice([["uc,%d" % d], ["ks,%d,%d,%d" % (d, rng.randrange(4), rng.randrange(4)), "uc,%d" % d],
+                                ["kn,%d,%d" % (d, rng.randrange(4)), "uc,%d" % d], ["gp,%d" % d, "uc,%d" % d, "fp,%d,@l0" % d]])
+            k = rng.randrange(len(ops) + 1)
+            ops = ops[:k] + extra + ops[k:]
         part = "ext-wrongcount" if (fa in WRONGCOUNT or fb in WRONGCOUNT) else ("ext-graph" if (fa.startswith("rg") or fb.startswith("rg")) else "ext-tree")
-        yield {"fa": fa, "fb": fb, "ba": 10, "bb": 40, "flags": rng.choice("012") + "w" + ("v" if rng.random() < 0.25 else ""), "ops": ops, "part": part}
+        yield {"fa": fa, "fb": fb, "ba": 10, "bb": 40, "flags": flags, "ops": ops, "part": part}
 
 
 def ext_post(chk, cases, impl, isteps, msteps, conc, agg):
@@ -1469,7 +1656,7 @@ def ext_post(chk, cases, impl, isteps, msteps, conc, agg):
             x["states_nested"] += fl.count("n")
 
             for d in (0, 1):
-                exp = "x" if (ts[d] is None or ts[d]["weird"]) else "".join(("%d," % m) if m >= 0 else "?," for m in ts[d]["marks"])
+                exp = "x" if (ts[d] is None or ts[d]["weird"] or ts[d]["junk"]) else "".join(("%d," % m) if m >= 0 else "?," for m in ts[d]["marks"])
                 x["leaf_steps"] += 1
                 if exp != ml[d]:
                     x["diff"].append({"what": "leaves", "case": describe(c, st), "step": k, "document": d, "implementation_tree": a["t"], "pgx_doc_leaves": ml[d]})
